@@ -1,7 +1,7 @@
 (* Property C10: CNOT-cost estimates equal the counts of the synthesis recursion.
    The estimate functions are TRANSLATED FROM /repo/qclib/unitary.py on every run (Gen_unitary_counts). *)
 From Coq Require Import ZArith List Bool.
-From QV Require Import GenLib Counts Gen_unitary_counts CountsGen.
+From QV Require Import GenLib Counts Gen_unitary_counts CountsGen Gen_isometry_counts CcdGen.
 Open Scope Z_scope.
 
 (* skeleton of the synthesis: c(2) = 3, c(n) = 2*(2*c(n-1) + 2^(n-1)) + (2^(n-1) - 1) *)
@@ -29,6 +29,12 @@ Print Assumptions C10_iso0_consistent.
 Theorem C10_csd_closed : forall n iso a2, 3 <= n -> _cnot_count_estimate n 1 iso a2 = 4 ^ n - 2 * 2 ^ n - 1.
 Proof. exact csd_estimate_closed. Qed.
 Print Assumptions C10_csd_closed.
+
+(* column-by-column scheme on a state vector (m = 0): one uniformly controlled gate up to a diagonal per target qubit,
+   2^(n-1-i) - 1 CNOTs each - estimate translated from qclib/isometry.py *)
+Theorem C10_ccd_state_estimate : forall n : nat, _cnot_count_estimate_ccd (Z.of_nat n) 0 = 2 ^ Z.of_nat n - 1 - Z.of_nat n.
+Proof. exact ccd_state_estimate. Qed.
+Print Assumptions C10_ccd_state_estimate.
 
 Example ex_values : _cnot_count_estimate 3 0 0 true = 20 /\ _cnot_count_estimate 4 0 0 true = 100
                     /\ _cnot_count_estimate 5 0 0 true = 444 /\ cx_build_a2 3 = 444.
